@@ -7,6 +7,11 @@ ALL = ["C%02d" % i for i in range(1, 21)]
 
 # id -> (level category, engine, technique, level text, level note, design ref)
 CLAIMED = {
+    "C07": ("model_checking", "S",
+            "stateless model checking (iterative context bounding, preemption bound 2 quick / 3 thorough, completed on all shards) of the real ProviderCache built with the instrumentation overlay and a fake source whose Fetch/FetchAll are scheduling points: readers (Get, List, GetResults of a cached provider) vs Refresh (with and without a rebuild of the main map), vs a miss-fetch, and two lookups after the refresh interval elapsed; PLUS a separate free-running `go test -race` pass of the same operations on the uninstrumented code (sampled)",
+            "Scheduled part (every execution is the real cache): at every quiescence a reader released last must be parked at its next point or finished - otherwise it is waiting for a writer that is parked inside a source call holding the write lock, which decides 'reads never wait' without timing; every read must observe a version some update produced, never missing, never older than an earlier read of the same caller; exactly one automatic refresh per elapsed interval. Race part: any race-detector report between repository source lines is a violation. The scheduled part is blind to pure data races by construction (shown with a mutant) and the race pass is blind to schedules it does not happen to sample, so each covers what the other cannot.",
+            "The race pass is sampled, so `exhaustive` is false for the check as a whole (counter scheduled_part_exhaustive_at_bound says whether the model-checked part completed); at most 2 readers; sequential consistency of atomics assumed.",
+            "DESIGN.md 6/C07, 13"),
     "C09": ("model_checking", "H",
             "exhaustive enumeration of operation sequences against one reference model (allow predicate, then LRU set with refresh-on-hit and explicit removal) on three layers: the LRU object (test-only export via the overlay) at capacities 1..3, every sequence of 6 (quick) / 7 (thorough) update/remove operations; the real receiver at its real capacity 64 after three fill-prefix variants, every sequence of <=3/4 operations over 9 (announce oldest / second-oldest / newest / fresh / from a denied peer / evicted, un-cache), delivery decided by quiescence in a synctest bubble; every address list of <=2/3 over 12 addresses with filtering on/off",
             "Every sequence is an execution of the real code (1.3 M quick), compared step by step with the model: return values and length of the LRU, delivered / not delivered and the CID and peer carried for the receiver, delivered addresses against net.IP predicates. Recency refresh on a hit, the order allow-check -> cache, the eviction order and the constant 64 only show over histories longer than the duplicate cache, which one duplicate-and-one-eviction test does not sample.",
